@@ -182,6 +182,12 @@ def make_op(rng, tasks, wbss, facades, mode='mixed', former=None):
         Op(f'{tn(t)}.successors.remove({tn(u)})', lambda: t.successors.remove(u), [t, u], ('remove-link', t, u, 'suc')),
         Op(f'{tn(t)} << {tn(one_or_list)}', lambda: t << one_or_list, [t] + tolist(one_or_list), ('append-link', t, tolist(one_or_list), 'pre')),
         Op(f'{tn(t)} >> {tn(one_or_list)}', lambda: t >> one_or_list, [t] + tolist(one_or_list), ('append-link', t, tolist(one_or_list), 'suc')),
+        # the operators on a task LIST: every member gets the named tasks as predecessors / successors (a refusal by a later member must leave the earlier ones untouched, C15)
+        Op(f'{tn(t)}.all_children << {tn(one_or_list)}', lambda: t.all_children << one_or_list, [t] + tolist(one_or_list), ('bulk-append-link', list(t.all_children), tolist(one_or_list), 'pre')),
+        Op(f'{tn(t)}.all_children >> {tn(one_or_list)}', lambda: t.all_children >> one_or_list, [t] + tolist(one_or_list), ('bulk-append-link', list(t.all_children), tolist(one_or_list), 'suc')),
+        Op(f'{owner_name(w)}.tasks(id_in_=[{t.id!r}, {v.id!r}]) << {tn(u)}', lambda: w.tasks(id_in_=[t.id, v.id]) << u, [t, v, u], ('bulk-append-link', list(w.tasks(id_in_=[t.id, v.id])), [u], 'pre')),
+    ] + ([Op(f'{owner_name(w)}.tasks(id_in_=[{t.id!r}, {P(u).id!r}]) << {tn(u)}  [one member is the parent of the named task]', lambda: w.tasks(id_in_=[t.id, P(u).id]) << u, [t, P(u), u],
+             ('bulk-append-link', list(w.tasks(id_in_=[t.id, P(u).id])), [u], 'pre'))] if P(u) is not None and P(u).id != EMPTY_ID else []) + [
         Op(f'{owner_name(w)}.remove({tn(u)})', lambda: w.remove(u), [u], ('wbs-remove', w, u)),
         Op(f'{owner_name(w)}.remove_all(id={u.id!r})', lambda: w.remove_all(id=u.id), [], ('wbs-remove-all', w, u.id)),
         Op(f'{tn(t)}.children.remove_all(id={u.id!r})', lambda: t.children.remove_all(id=u.id), [t], ('list-remove-all', t, u.id)),
@@ -209,7 +215,7 @@ def make_op(rng, tasks, wbss, facades, mode='mixed', former=None):
     if rng.random() < .4: ckw['children'] = L
     if rng.random() < .4: ckw['predecessors'] = rng.choice([v, L])
     if rng.random() < .3: ckw['successors'] = rng.choice([t, L])
-    cand.append(Op(f'Task({u.id!r}, ' + ', '.join(f'{k}={tn(x)}' for k, x in ckw.items()) + ')', lambda: Task(u.id, **ckw), [], ('construct',)))
+    cand.append(Op(f'Task({u.id!r}, ' + ', '.join(f'{k}={tn(x)}' for k, x in ckw.items()) + ')', lambda: Task(u.id, **ckw), [], ('construct', dict(ckw))))
     if facades:
         k = rng.randrange(len(facades)); f, owner = facades[k]
         fo = f'facade{k}(of {owner_name(owner)})'
@@ -228,10 +234,13 @@ def make_op(rng, tasks, wbss, facades, mode='mixed', former=None):
     targeted = [o for o in cand if '[' in o.name and ('former' in o.name or 'promotes' in o.name or 'repeated' in o.name or 'live list view' in o.name)] + [o for o in cand if o.name.startswith('facade')]
     if mode != 'links' and targeted and rng.random() < 0.3:
         return rng.choice(targeted)
+    bulk = [o for o in cand if o.effect[0] == 'bulk-append-link']
+    if mode != 'hierarchy' and bulk and rng.random() < 0.12:
+        return rng.choice(bulk)
     if mode == 'links':
-        cand = [o for o in cand if o.effect[0] in ('assign-links', 'append-link', 'remove-link')]
+        cand = [o for o in cand if o.effect[0] in ('assign-links', 'append-link', 'remove-link', 'bulk-append-link')]
     elif mode == 'hierarchy':
-        cand = [o for o in cand if o.effect[0] not in ('assign-links', 'append-link', 'remove-link', 'construct')]
+        cand = [o for o in cand if o.effect[0] not in ('assign-links', 'append-link', 'remove-link', 'construct', 'bulk-append-link')]
     return rng.choice(cand)
 
 
@@ -331,6 +340,13 @@ def check_effect(op, before, after, ret, allt):
         for a in allt:
             if isin(x, after[id(a)][mirror]) != isin(a, want): bad.append(('C16 mirror side of an edited dependency not updated', f'{a.id}'))
         links_of = [x] + want + list(before[id(x)][mine])
+    elif kind == 'bulk-append-link':
+        _, members, L, side = e
+        mine, mirror = (2, 3) if side == 'pre' else (3, 2)
+        for x in members:
+            want = dedupe(list(before[id(x)][mine]) + L); got = after[id(x)][mine]
+            if sorted(map(id, got)) != sorted(map(id, want)) or len(got) != len(want): bad.append((f'C16 {side} append on a task list: list of a member is not exactly the old links plus the given tasks', f'{x.id}: {[y.id for y in got]} vs {[y.id for y in want]}'))
+            links_of += [x] + want
     elif kind == 'remove-link':
         _, x, y, side = e
         mine, mirror = (2, 3) if side == 'pre' else (3, 2)
@@ -445,6 +461,15 @@ def walk(seed, index, props, steps=12, n=None, verbose=False):
             found.append(('C01 task is its own ancestor', 'oracle recursion'))
         if outcome == 'ok' and not found and 'C16' in props and op.effect[0] != 'construct':
             found += check_effect(op, before, after, ret, allt)
+        if outcome == 'ok' and not found and 'C16' in props and op.effect[0] == 'construct' and len(op.effect) > 1 and isinstance(ret, Task):
+            # an accepted constructor call: the new task has exactly the relations it was given (C16)
+            kw = op.effect[1]; a1 = after.get(id(ret))
+            if a1 is not None:
+                if kw.get('parent') is not None and a1[0] is not kw['parent']: found.append(('C16 constructor: new task does not report the given parent', ''))
+                if 'children' in kw and [id(x) for x in a1[1]] != [id(x) for x in dedupe(tolist(kw['children']))]: found.append(('C16 constructor: children of the new task are not the given tasks', f'{[x.id for x in a1[1]]}'))
+                for key, k in (('predecessors', 2), ('successors', 3)):
+                    want = dedupe(tolist(kw.get(key)))
+                    if sorted(map(id, a1[k])) != sorted(map(id, want)): found.append((f'C16 constructor: {key} of the new task are not the given tasks', f'{[x.id for x in a1[k]]} vs {[x.id for x in want]}'))
         other = [f for f in found if f[0][:3] not in props]
         found = [f for f in found if f[0][:3] in props]
         if found:
@@ -467,9 +492,28 @@ def walk(seed, index, props, steps=12, n=None, verbose=False):
 DEFAULT_BUDGET = {'quick': 2000, 'thorough': 40000}
 
 
+def directed_bulk_link(props):
+    """directed case (every run): `task_list << c` where the first member accepts c and a later member refuses it (c is its child) - C15 wants the first member untouched"""
+    w = WBS(); a = Task(1, 'a'); b = Task(2, 'b'); c = Task(3, 'c', parent=b); w.roots = [a, b]
+    allt = [a, b, c]; before = snapshot(allt); outcome = 'ok'
+    hist = ['w = WBS(); a = Task(1); b = Task(2); c = Task(3, parent=b); w.roots = [a, b]', 'w.tasks(id_in_=[1, 2]) << c']
+    try:
+        w.tasks(id_in_=[1, 2]) << c
+    except RuntimeError:
+        outcome = 'raise'
+    after = snapshot(allt); viol = []
+    if outcome != 'ok' and not snap_eq(before, after) and 'C15' in props:
+        viol.append(('C15 a rejected call changed the graph', f'a.predecessors = {[t.id for t in PRE(a)]}, c.successors = {[t.id for t in SUC(c)]} after the refused call | after w.tasks(id_in_=[1, 2]) << c -> raise'))
+    return viol, {'op:bulk-append-link', 'outcome:raise', 'directed'}, {'history': [h + (' -> ' + outcome if k else '') for k, h in enumerate(hist)], 'directed': 'bulk-link'}, outcome
+
+
 def run(props, tier, seed, budget=None):
     n = budget or DEFAULT_BUDGET[tier]
     findings = []; stats = collections.Counter(); distinct = set(); samples = []
+    if 'C15' in props:
+        viol, tags, desc, _ = directed_bulk_link(props); stats['walks'] += 1; stats['calls'] += 1
+        for clause, detail in viol:
+            findings.append(Finding(clause[:3], clause, tags, detail, {'scenario': 'graph', 'seed': seed, 'index': -1, 'directed': 'bulk-link', 'input': desc}))
     for i in range(n):
         try:
             viol, tags, desc, _ = walk(seed, i, props)
@@ -488,4 +532,5 @@ def run(props, tier, seed, budget=None):
 
 
 def replay(case, props):
+    if case.get('directed') == 'bulk-link': return directed_bulk_link(props)
     return walk(case['seed'], case['index'], props)
